@@ -159,7 +159,8 @@ impl Reader {
     /// Routes into the body state of a flow that differ in what happened before the head:
     /// 0 plain GET; 1 POST with Expect, the caller gave up waiting, and the late `100 Continue` sits in the same window as the head;
     /// 2 the same but the 100 arrives in a call of its own; 3 POST with Expect, the 100 was seen while awaiting it;
-    /// 4 the head arrives in two pieces (the first piece is re-presented, as nothing of it is consumed).
+    /// 4 the head arrives in two pieces (the first piece is re-presented, as nothing of it is consumed);
+    /// 5 POST with Expect that the server refuses with this very response (the body read belongs to the refusal).
     /// The caller learns where the head ends only from the reported counts, so they must add up to the bytes before the body.
     pub fn new_route(api: Api, route: usize, req_v10: bool, req_close: bool, head: &[u8]) -> Result<Reader, String> {
         if api == Api::Call || (route == 0 && !req_close) {
@@ -168,6 +169,11 @@ impl Reader {
         let close: &[(&str, &str)] = if req_close { &[("connection", "close")] } else { &[] };
         let close_expect: &[(&str, &str)] = if req_close { &[("connection", "close"), ("expect", "100-continue")] } else { &[("expect", "100-continue")] };
         const C100: &[u8] = b"HTTP/1.1 100 Continue\r\n\r\n";
+        if route == 5 {
+            // the request asked for 100-continue and the server answers with this very response instead: the flow leaves
+            // Await100 for RecvResponse without sending its body, and the body that follows belongs to the refusal
+            return Reader::refused_expect(req_v10, head);
+        }
         let mut f = match route {
             1 | 2 => flow_recv(&Method::POST, req_v10, close_expect)?,
             3 => flow_recv_saw_100(req_v10, C100)?,
@@ -224,6 +230,40 @@ impl Reader {
             ));
         }
         match f.proceed() {
+            Some(RecvResponseResult::RecvBody(b)) => Ok(Reader::Flow(b)),
+            Some(_) => Err("flow did not enter the body state".into()),
+            None => Err("flow cannot proceed after the head".into()),
+        }
+    }
+
+    fn refused_expect(req_v10: bool, head: &[u8]) -> Result<Reader, String> {
+        let req = Request::builder()
+            .method(Method::POST)
+            .uri("http://h.test/p")
+            .version(if req_v10 { Version::HTTP_10 } else { Version::HTTP_11 })
+            .header("expect", "100-continue")
+            .body(())
+            .map_err(|e| e.to_string())?;
+        let mut f = Flow::new(req).map_err(|e| format!("Flow::new: {:?}", e))?.proceed();
+        let mut out = [0u8; 1024];
+        crate::drive::redirect::write_head_until_ready(&mut f, &mut out).map_err(|e| format!("head write: {:?}", e))?;
+        let mut a = match f.proceed().map_err(|e| format!("SendRequest::proceed: {:?}", e))? {
+            Some(SendRequestResult::Await100(a)) => a,
+            _ => return Err("expected Await100 after the head".into()),
+        };
+        let n = a.try_read_100(head).map_err(|e| format!("try_read_100 on the refusal: {:?}", e))?;
+        if n != 0 || a.can_keep_await_100() {
+            return Err(format!("a non-100 response while awaiting 100: consumed {}, still awaiting = {}", n, a.can_keep_await_100()));
+        }
+        let mut rr = match a.proceed().map_err(|e| format!("Await100::proceed: {:?}", e))? {
+            ureq_proto::client::flow::Await100Result::RecvResponse(r) => r,
+            _ => return Err("refused Expect but the flow wants to send the body".into()),
+        };
+        match rr.try_response(head) {
+            Ok((n, Some(_))) if n == head.len() => {}
+            other => return Err(format!("refusal head not accepted: {:?}", other.map(|o| (o.0, o.1.is_some())))),
+        }
+        match rr.proceed() {
             Some(RecvResponseResult::RecvBody(b)) => Ok(Reader::Flow(b)),
             Some(_) => Err("flow did not enter the body state".into()),
             None => Err("flow cannot proceed after the head".into()),
